@@ -161,11 +161,15 @@ type Case struct {
 	Proto  string `json:"proto"` // loki_json | loki_pb | prw | influx | ddlog | ddmet | otlp
 	WSeed  int64  `json:"wseed"` // every serialisation choice (layout, key order, timestamp syntax) derives from it
 	CtxTTL uint16 `json:"ctx_ttl"`
+	Split  bool   `json:"split,omitempty"` // Loki JSON: labels / entries of a stream may be spread over two members of the stream object
+	Cache  string `json:"cache,omitempty"` // "" = never-hit cache (clustered deployment); "set" = remembers every (day, fingerprint) of the request
 	Body   Body   `json:"body"`
 	Wire   string `json:"wire_hex,omitempty"` // the bytes handed to the parser (only kept when small)
 	Obs    Obs    `json:"obs"`
 	NRows  int    `json:"nrows"` // number of entries submitted (for coverage accounting)
 	Coq    string `json:"coq,omitempty"`
+
+	members [][]member // Loki JSON: the members of every stream object in the order they were written
 }
 
 // ---------------------------------------------------------------- running the real parsers
@@ -176,6 +180,18 @@ type missCache struct{}
 
 func (missCache) CheckAndSet(uint64) bool              { return false }
 func (missCache) DB(string) numbercache.ICache[uint64] { return missCache{} }
+
+// fpCache of a standalone deployment within one request: a set of the keys seen
+type setCache struct{ seen map[uint64]bool }
+
+func (c *setCache) CheckAndSet(k uint64) bool {
+	if c.seen[k] {
+		return true
+	}
+	c.seen[k] = true
+	return false
+}
+func (c *setCache) DB(string) numbercache.ICache[uint64] { return c }
 
 func parserOf(proto string) unmarshal.ParsingFunction {
 	switch proto {
@@ -255,7 +271,11 @@ func run(c *Case) {
 	var ch chan *model.ParserResponse
 	go func() {
 		defer close(done)
-		ch = parserOf(c.Proto)(ctx, bytes.NewReader(wire), missCache{})
+		var cache numbercache.ICache[uint64] = missCache{}
+		if c.Cache == "set" {
+			cache = &setCache{seen: map[uint64]bool{}}
+		}
+		ch = parserOf(c.Proto)(ctx, bytes.NewReader(wire), cache)
 		for r := range ch {
 			if r.Error != nil {
 				if strings.HasPrefix(r.Error.Error(), "panic:") {
